@@ -413,9 +413,39 @@ func runWorkers(bin, id, tier string, seed int64, runs, wall, nw int, work, repl
 				note := ""
 				if mutexWait {
 					note = " (a goroutine was waiting for a mutex)"
-					abandonedMutex++
-					if abandonedMutexDump == "" {
-						abandonedMutexDump = se
+					if frames := libraryMutexWaiter(se); frames != "" && deadlockProps[id] {
+						// The waiter stands in go-smtp code in front of one of go-smtp's own
+						// mutexes (Server.locker, Conn.locker) and the clock cannot move: the
+						// mutex was left locked, or is held across something that blocks. For a
+						// property with a no-deadlock clause that is a violation of it.
+						note = " (a goroutine waits for a mutex of the library: reported as a deadlock)"
+						if freezeFailures < 3 {
+							ff := failure{Property: id, Rule: id + ".deadlock", Tier: tier, Regen: true, Digest: "freeze",
+								Detail:  "the simulated clock stopped because a goroutine waits for a mutex of the library that is never released (left locked, or held across a blocking operation):\n" + frames,
+								History: strings.Split(tail(se, 6000), "\n")}
+							ff.Seed, _ = strconv.ParseUint(f[0], 10, 64)
+							ff.Run, _ = strconv.ParseUint(f[1], 10, 64)
+							if len(f) >= 3 && f[2] != "-" {
+								ff.Over = map[string]int{}
+								for _, kv := range strings.Split(f[2], ",") {
+									p := strings.SplitN(kv, "=", 2)
+									if len(p) == 2 {
+										v, _ := strconv.Atoi(p[1])
+										ff.Over[p[0]] = v
+									}
+								}
+							}
+							ff.File = filepath.Join(replayDir, fmt.Sprintf("%s-%s_deadlock-freeze-s%d-r%d.json", id, id, ff.Seed, ff.Run))
+							fb, _ := json.MarshalIndent(ff, "", " ")
+							os.WriteFile(ff.File, fb, 0o644)
+							freezeCrashes = append(freezeCrashes, ff)
+						}
+						freezeFailures++
+					} else {
+						abandonedMutex++
+						if abandonedMutexDump == "" {
+							abandonedMutexDump = se
+						}
 					}
 				}
 				abandoned = append(abandoned, fmt.Sprintf("seed=%s run=%s over=%s%s", f[0], f[1], strings.Join(f[2:], ""), note))
@@ -436,6 +466,11 @@ func runWorkers(bin, id, tier string, seed int64, runs, wall, nw int, work, repl
 		}
 		// the worker died: watchdog / harness problem (exit 2) or a crash of the process
 		se := stats[i].stderr
+		if strings.Contains(se, "WATCHDOG:") && (results[i].Property != "" || freezeFailures > 0) {
+			// it lost run after run to the watchdog until its attempts were used up: what it
+			// had counted before is kept, the abandoned runs are on record
+			continue
+		}
 		if strings.Contains(se, "WATCHDOG:") || !(strings.Contains(se, "panic:") || strings.Contains(se, "fatal error:")) {
 			fmt.Fprintf(os.Stderr, "worker %d failed without a result (%v):\n%s\n", i, stats[i].err, tail(se, 4000))
 			return nil, nil, 2
@@ -468,6 +503,10 @@ func runWorkers(bin, id, tier string, seed int64, runs, wall, nw int, work, repl
 		os.WriteFile(f.File, b, 0o644)
 		crashes = append(crashes, f)
 	}
+	abandonedMu.Lock()
+	crashes = append(crashes, freezeCrashes...)
+	freezeCrashes = nil
+	abandonedMu.Unlock()
 	return results, crashes, 0
 }
 
@@ -476,7 +515,51 @@ var (
 	abandoned          []string
 	abandonedMutex     int
 	abandonedMutexDump string
+	freezeFailures     int
+	freezeCrashes      []failure
 )
+
+// properties with a "no deadlock" clause of their own
+var deadlockProps = map[string]bool{"C20": true, "C08": true, "C13": true, "C19": true}
+
+// libraryMutexWaiter returns the first frames of a goroutine of the dump that is
+// blocked in sync.Mutex.Lock called directly from go-smtp code ("" if none).
+func libraryMutexWaiter(dump string) string {
+	// A goroutine asleep on the fake clock below library frames is a callback or a transport
+	// call that the harness has parked: it may be the holder, and it would let go if the clock
+	// could move - a delay, not a deadlock. Only a dump without one is judged.
+	for _, g := range strings.Split(dump, "\n\n") {
+		if strings.Contains(g, "[sleep") && strings.Contains(g, "emersion/go-smtp.") {
+			return ""
+		}
+	}
+	for _, g := range strings.Split(dump, "\n\n") {
+		if !strings.Contains(g, "[sync.Mutex.Lock") && !strings.Contains(g, "[sync.RWMutex") {
+			continue
+		}
+		var fns []string
+		for _, l := range strings.Split(g, "\n") {
+			if strings.HasPrefix(l, "\t") || strings.HasPrefix(l, "goroutine ") || l == "" {
+				continue
+			}
+			fns = append(fns, l)
+		}
+		for i, fn := range fns {
+			if strings.HasPrefix(fn, "sync.") || strings.HasPrefix(fn, "internal/sync.") || strings.HasPrefix(fn, "runtime.") || strings.HasPrefix(fn, "internal/") {
+				continue
+			}
+			if strings.Contains(fn, "emersion/go-smtp.") {
+				end := i + 4
+				if end > len(fns) {
+					end = len(fns)
+				}
+				return "  " + strings.Join(fns[i:end], "\n  ")
+			}
+			break
+		}
+	}
+	return ""
+}
 
 // mergeWorker adds the result of a resumed worker process to what its
 // predecessors reported.
@@ -748,6 +831,22 @@ func replay(args []string) int {
 	if race {
 		rl := filepath.Join(work, "race")
 		cmd.Env = append(cmd.Env, "VERIF_RACE=1", "GORACE=halt_on_error=0 log_path="+rl, "VERIF_RACELOG="+rl)
+	}
+	if f.Digest == "freeze" {
+		// the recorded run stopped the simulated clock: it reproduces when it does so again,
+		// with a goroutine waiting for a mutex of the library
+		var eb bytes.Buffer
+		cmd.Stdout, cmd.Stderr = &eb, &eb
+		cmd.Env = append(cmd.Env, "VERIF_RUN_WALL_LIMIT=15")
+		cmd.Run()
+		out := eb.String()
+		fmt.Println(tail(out, 5000))
+		if strings.Contains(out, "WATCHDOG:") && libraryMutexWaiter(out) != "" {
+			fmt.Printf("violation rule=%s detail=%s\nREPRODUCED: the simulated clock stops again, a goroutine waits for a mutex of the library\nVIOLATION property=%s replay=%s\n", f.Rule, strings.SplitN(f.Detail, "\n", 2)[0], f.Property, path)
+			return 1
+		}
+		fmt.Println("NOT REPRODUCED: the run did not stop the clock")
+		return 0
 	}
 	cmd.Stdout, cmd.Stderr = os.Stdout, os.Stderr
 	if err := cmd.Run(); err != nil {
